@@ -21,7 +21,7 @@ func init() {
 		Explanation: "One rule set applied uniformly to the six sibling helpers of package test (cross-check by uniform obligations over SSA, not by text equality): " +
 			"C20.iface: the value is tested against the interface whose method carries the helper's name, behind the direction filter (other-direction cases are ignored) and for every applicable case (T may be an interface type: each case has its own dynamic type); failure calls assert.FailNow(f) with the helper's t and returns. " +
 			"C20.dir: the helper filters with the direction predicate of its own direction, applied to the case's Constraint, the false edge skipping the case; isForMarshal/isForUnmarshal are c==0 ∨ c==Only<own> (table over the constraint values). " +
-			"C20.hooks: Before precedes and After follows the marshal call, both through callForCase, both results asserted with NoError, a failure skips the case; no path from the marshal call to the next case avoids the After hook; the Before hook sits behind the direction filter; both hooks receive the address of the variable the case's Data/Value/Error are read from. C20.support: helperNew allocates a fresh target exactly when helper == nil and T is a pointer type (decision by the type only), otherwise helper.New(value); helperAssertEmpty/Equal assert on t with the values in order, or delegate to the TypeHelper; castToFunc makes both interface probes on its parameter (any(value), any(&value)), not on a zero T. " +
+			"C20.hooks: Before precedes and After follows the marshal call, both through callForCase, both results asserted with NoError, a failure skips the case; no path from the marshal call to the next case avoids the After hook; the Before hook sits behind the direction filter; both hooks receive the address of the variable the case's Data/Value/Error are read from, and what the tested call is given (data, or the target built from Value) is read after the Before hook. C20.support: helperNew allocates a fresh target exactly when helper == nil and T is a pointer type (decision by the type only), otherwise helper.New(value); helperAssertEmpty/Equal assert on t with the values in order, or delegate to the TypeHelper; castToFunc makes both interface probes on its parameter (any(value), any(&value)), not on a zero T, and each accessor it returns converts the target it is given, not a value captured at the probe. " +
 			"C20.safe: the user's Marshal*/Unmarshal* method is invoked only inside a function with a deferred recover whose result is turned into the returned error; callForCase protects the hooks the same way. " +
 			"C20.verdict: with an error predicate: the predicate is invoked with (t, the obtained error, info) and, on true, an emptiness assertion (assert.Empty / the TypeHelper; not assert.Nil, which also fails on an empty non-nil result) on the produced data/value follows; without: NoError on the obtained error and, on true, an equality assertion between the case's expectation and the produced data/value; every assertion receives the helper's t; the expectation reaches the assertion as loaded from the case, unconverted, and two byte slices are not compared raw with assert.Equal (nil ≠ empty there) but as text or after the both-empty case is merged. " +
 			"C20.pred: each error predicate calls the assertion its name promises (assertion), and can answer false only where an assertion on t is known to have failed — the returned value is an assertion's own result, or the return lies behind the false edge of one, or behind assert.Fail (reports). panicError(err, r) is err for r == nil and a freshly constructed error otherwise, and the deferred closures store exactly its result (or an error constructed on the spot); the emptiness and equality assertions lie on every path after the satisfied condition; helperNew returns the zero value of T on every return other than the fresh allocation and helper.New.",
@@ -48,7 +48,7 @@ func runC20(e *Env) {
 	ruleC20Pred(e)
 	ruleC20Support(e)
 	ruleC20PanicError(e)
-	e.S.Floor("C20.support", 5)
+	e.S.Floor("C20.support", 6)
 	for _, r := range []string{"C20.iface", "C20.dir", "C20.hooks", "C20.safe", "C20.verdict"} {
 		e.S.Floor(r, 6)
 	}
@@ -592,9 +592,60 @@ func ruleC20Helper(e *Env, h helperSpec) {
 			}
 			return a.Block().Dominates(b.Block())
 		}
+		// what the tested call is given (its data, or the target built from the case's Value) is read from the case after
+		// the Before hook has run: the hook receives the case to change it. The interface probe (castToFunc, a type
+		// test) is not such a read.
+		var stale ssa.Instruction
+		if before != nil {
+			seen := map[ssa.Value]bool{}
+			var walk func(v ssa.Value, depth int)
+			walk = func(v ssa.Value, depth int) {
+				if v == nil || seen[v] || depth > 8 {
+					return
+				}
+				seen[v] = true
+				in, ok := v.(ssa.Instruction)
+				if !ok {
+					return
+				}
+				if c, ok := v.(*ssa.Call); ok {
+					if f := c.Call.StaticCallee(); f != nil && flow.Origin(f).Name() == "castToFunc" {
+						return
+					}
+				}
+				if _, isPhi := v.(*ssa.Phi); isPhi {
+					return
+				}
+				if fieldLoad(v, "Data") || fieldLoad(v, "Value") {
+					if u, ok := v.(*ssa.UnOp); ok && !precedes(before, u) && in.Block() != nil {
+						stale = u
+					}
+					return
+				}
+				if a, ok := v.(*ssa.Alloc); ok {
+					// a local (the target `v`): what is stored into it
+					for _, r := range *a.Referrers() {
+						if st, ok := r.(*ssa.Store); ok && st.Addr == ssa.Value(a) {
+							walk(st.Val, depth+1)
+						}
+					}
+					return
+				}
+				for _, op := range in.Operands(nil) {
+					if *op != nil {
+						walk(*op, depth+1)
+					}
+				}
+			}
+			for _, a := range safe.Call.Args {
+				walk(a, 0)
+			}
+		}
 		switch {
 		case before == nil || after == nil:
 			e.S.Bad("C20.hooks", site, "hooks", "the Before and After hooks are not both run through callForCase", pos, "")
+		case stale != nil:
+			e.S.Bad("C20.hooks", site, "hooks", "what the tested call is given is read from the case in front of the Before hook: a hook that prepares the case (sets Value or Data) is ignored for that read, so a satisfied case can be reported and an unsatisfied one missed", e.posOf(stale), "a Before hook that sets c.Value, with a TypeHelper whose New builds the target from its argument")
 		case !precedes(before, safe) || !precedes(safe, after):
 			e.S.Bad("C20.hooks", site, "hooks", "Before must precede and After must follow the marshal call", pos, "")
 		case dirCall != nil && !(dirCall.Block() != before.Block() && dirCall.Block().Dominates(before.Block())):
@@ -1473,6 +1524,74 @@ func ruleC20Support(e *Env) {
 			e.S.Unk(rule, site, "probe", "the two probes (value form, pointer form) were not recognised", e.Pos(fn))
 		default:
 			e.S.Ok(rule, site, "probe", "both forms are probed on the parameter itself: any(value).(I), any(&value).(I)", e.Pos(fn))
+		}
+	}
+	// ---- castToFunc's accessors: the function handed out converts the target it is given (*T or T behind it), not a
+	// value captured when the probe was made — the unmarshal helpers decode into what the accessor returns
+	if fn := e.Fn(rule, "test", "castToFunc"); fn != nil && len(fn.Params) == 1 {
+		site := flow.FnName(fn)
+		n, bad, und := 0, "", ""
+		var at ssa.Instruction
+		for _, b := range fn.Blocks {
+			ret, ok := b.Instrs[len(b.Instrs)-1].(*ssa.Return)
+			if !ok || len(ret.Results) != 1 {
+				continue
+			}
+			if c, ok := ret.Results[0].(*ssa.Const); ok && c.IsNil() {
+				continue
+			}
+			var acc *ssa.Function
+			switch x := ret.Results[0].(type) {
+			case *ssa.MakeClosure:
+				acc, _ = x.Fn.(*ssa.Function)
+			case *ssa.Function:
+				acc = x
+			}
+			if acc == nil || len(acc.Params) != 1 || len(acc.Blocks) == 0 {
+				und, at = "the returned accessor is not a function literal or function of one parameter", ret
+				continue
+			}
+			n++
+			for _, ab := range acc.Blocks {
+				ar, ok := ab.Instrs[len(ab.Instrs)-1].(*ssa.Return)
+				if !ok || len(ar.Results) != 1 {
+					continue
+				}
+				v := ar.Results[0]
+				for i := 0; i < 6; i++ {
+					switch y := v.(type) {
+					case *ssa.TypeAssert:
+						v = y.X
+						continue
+					case *ssa.MakeInterface:
+						v = y.X
+						continue
+					case *ssa.ChangeInterface:
+						v = y.X
+						continue
+					case *ssa.ChangeType:
+						v = y.X
+						continue
+					case *ssa.UnOp:
+						if y.Op == token.MUL {
+							v = y.X
+							continue
+						}
+					}
+					break
+				}
+				if v != ssa.Value(acc.Params[0]) {
+					bad, at = "accessor "+acc.Name()+" returns "+ar.Results[0].String()+", which is not a conversion of the target it is given", ar
+				}
+			}
+		}
+		switch {
+		case bad != "":
+			e.S.Bad(rule, site, "accessor", bad+": the helpers decode into something else than the fresh target they compare afterwards", e.posOf(at), "a table of pointer-typed cases (CaseText[*X]): the target stays zero, the case's own Value is overwritten")
+		case und != "" || n < 2:
+			e.S.Unk(rule, site, "accessor", "the two accessors (value form, pointer form) were not recognised: "+und, e.Pos(fn))
+		default:
+			e.S.Ok(rule, site, "accessor", fmt.Sprintf("%d accessors, each returns a conversion of the target it is given (any(*t).(I), any(t).(I))", n), e.Pos(fn))
 		}
 	}
 	// ---- helperAssertEmpty / helperAssertEqual
